@@ -453,6 +453,11 @@ class Compiler:
                     group_indexes = [
                         index for index, c_target in enumerate(c_targets)
                         if not c_target.is_aggregate]
+                    # Check that the implicit group-by columns have a supported hashable type.
+                    for index in group_indexes:
+                        if not issubclass(c_targets[index].c_expr.dtype, collections.abc.Hashable):
+                            raise CompilationError(
+                                f'GROUP-BY a non-hashable type is not supported: "{c_targets[index].name}"')
                 else:
                     raise CompilationError('aggregate query without a GROUP-BY should have only aggregates')
             else:
